@@ -228,7 +228,7 @@ void tune(Rng& r, sim::SimCfg& c) {
     // the worker count of pS5 is hardware_concurrency(): mostly small pools
     static const int64_t hw[] = {1, 2, 2, 3, 3, 4, 5, 8};
     c.hw_concurrency = r.pick(hw);
-    c.step_bound = 20000000;
+    c.step_bound = 3000000;
 }
 
 const sim::HarnessDef def = {"C04", true, 300, generate, execute, tune};
